@@ -1187,6 +1187,9 @@ def main(tier):
         "float64 comparisons sizeDiff/avg > 0.5 and jaccard < 0.10 modelled exactly over Q (no rounding boundary reachable for fragment sizes < 2^52)",
         "sort.Slice is unstable: with more than MaxClonePairs qualifying pairs the kept set is not determined; model and theorems cover the untruncated case exactly",
         "hand-written model Clone/Pairs.v of clone_detector.go / clone_service.go / lsh_index.go",
+        "detection-path runs and the project with more than 100 fragments: the similarity table given to the model (and the clause 'similarity/"
+        "distance are the tree comparison's') is what a lenient run of the same implementation on the same files reported (probe run of the hook / "
+        "`pyscn analyze` with reporting threshold = Type-4 = 0.5), mirrored to both orientations; a pair the lenient run does not report has no cell",
         "fragment candidates: model Clone/Walk.v over the statement lists read from the `range node.<list>` loops of extractFragmentsRecursive / "
         "ConvertAST (translator); compared per file with ExtractFragments (no minimum size) on the statement skeleton the hook builds with "
         "its own traversal of Children, Body, Orelse, Handlers, Finalbody; isFragmentCandidate (the node kinds) is used as is",
